@@ -126,10 +126,13 @@ LIT_POOL = ["0", "1", "2", "-1", "True", "False", "'a'", "'1'", "''", "None", "C
             "Num.ONE", "Lvl.LO", "Lvl.HI", "b'x'", "'r'", "1000", "'x y'"]
 LIT_INPUTS = ["0", "1", "2", "-1", "True", "False", "0.0", "1.0", "2.0", "-1.0", "1.5", "float('nan')", "'a'", "'1'", "''",
               "None", "'r'", "'g'", "'eA==\\n'", "'eA=='", "'x'", "[]", "[1]", "{}", "'True'", "'None'", "10**20", "1000", "'x y'", "1000.0"]
+LIT_ENC_EXTRA = ["0", "1", "2", "True", "False", "1.0", "0.0", "'a'", "'r'", "'zz'", "None", "Num.ONE", "Num.TWO", "Lvl.LO", "Color.GREEN",
+                 "b'x'", "b'y'", "1000", "[]", "1000.0"]
 CURATED_LITS = ["Literal[1]", "Literal[1, True]", "Literal[0, False]", "Literal[True, 1]", "Literal['a']",
                 "Literal['a', None]", "Literal[Color.RED, 'r']", "Literal[Lvl.LO, 1]", "Literal[1, Lvl.LO]",
                 "Literal[b'x', 'eA==\\n']", "Literal[None]", "Literal[Num.ONE, 2]", "Literal[0, False, 'a', None]",
-                "Literal[Literal[1, 2], 'a']", "Literal[1000, 'x y', 2]"]
+                "Literal[Literal[1, 2], 'a']", "Literal[1000, 'x y', 2]", "Literal[Num.ONE, True]", "Literal[Num.ONE, 1, True]",
+                "Literal[True, Num.ONE]", "Literal[Lvl.LO, Num.ONE, 1]"]
 
 _MOD_COUNTER = [0]
 
@@ -649,7 +652,7 @@ def literal_part(ctx: vlib.Ctx, mod, mem: Members):
     for _ in range(ctx.budget(50, 300)):
         k = rng.choice([1, 2, 2, 3, 4])
         specs.append((f"Literal[{', '.join(rng.sample(LIT_POOL, k))}]", rng.choice(["codec", "field", "list"])))
-    lcases, linfo = [], []
+    lcases, linfo, lecases, leinfo = [], [], [], []
     for expr, entry in specs:
         site = Site(mod, expr, entry)
         lits = list(get_literal_values(site.tp))
@@ -677,48 +680,44 @@ def literal_part(ctx: vlib.Ctx, mod, mem: Members):
             observed = outcome(site.decode, v)
             exp_l = next((l for l in lits if strict(v, l)), None)   # REFERENCE: exactly the listed values
             expected = ("ok", exp_l) if any(strict(v, l) for l in lits) else ("raise", "ValueError")
-            homog = all((not pymatch(v, l)) or strict(v, l) for l in lits)
-            if same(observed, expected):
-                cls = "agree"
-            else:
-                first = next((l for l in lits if pymatch(v, l)), None)
-                numeric = type(v) in (bool, int, float)
-                cls = "literal-eq-cross-type" if (numeric and not homog and first is not None and same(observed, ("ok", first))) else "other"
-            ctx.count(("lit", expr, type(v).__name__, cls))
+            cls = "agree" if same(observed, expected) else "literal-decode"
+            cross = any(pymatch(v, l) and not strict(v, l) for l in lits)
+            ctx.count(("lit", expr, type(v).__name__, cls, cross))
             ctx.hist("literal_input_class", type(v).__name__)
-            ctx.hist("literal_outcome", cls + "/" + observed[0])
+            ctx.hist("literal_outcome", cls + "/" + observed[0] + ("/cross-type-equal" if cross else ""))
             if cls != "agree":
                 ctx.fail(f"Literal decode {expr} via {entry} <- {vx}: got {show(observed)}, property says {show(expected)}",
                          dict(site.replay_base(), op="decode", input=vx, observed=show(observed), expected=show(expected)),
-                         {"kind": cls, "op": "decode"})
-            if homog and cls != "agree":
-                ctx.not_shown("C11_literal_partial hypothesis holds but implementation deviates", f"{expr} <- {vx}")
-            lcases.append(f"LC [{'; '.join(lit_coq(l) for l in lits)}] {to_ouv(bdec(v))} {to_uv(v)} {to_ouv(observed)} {to_ouv(expected)} {'true' if homog else 'false'}")
-            linfo.append((expr, entry, vx, show(observed), show(expected), cls, homog))
-        # encode: every listed constant is packed like a value of its own class
-        for l in lits:
-            if isinstance(l, _enum.IntEnum):
-                continue
-            observed = outcome(site.encode, l)
-            expected = mem.encode(type(l), l, False)
-            ctx.count(("litenc", expr, type(l).__name__))
-            if not same(observed, expected):
-                # `if value == <earlier listed enum member>: return value.value` fires for a plain constant that is
-                # ==-equal to an IntEnum/StrEnum-like member listed before it
-                shadow = any(isinstance(l2, _enum.Enum) and type(l2) is not type(l) and bool(l == l2) for l2 in lits[:[id(z) for z in lits].index(id(l))])
-                kind = "literal-eq-cross-type" if shadow else "other"
-                ctx.fail(f"Literal encode {expr} via {entry} <- {l!r}: got {show(observed)}, expected {show(expected)}",
-                         dict(site.replay_base(), op="encode", input=repr(l) if not isinstance(l, _enum.Enum) else f"{type(l).__name__}.{l.name}",
-                              observed=show(observed), expected=show(expected)), {"kind": kind, "op": "literal-encode"})
-    corr(ctx, "literal-decode-model-vs-impl", lcases, linfo, "lcase", ["lcase_ok", "lcase_ok_model", "lcase_ok_ref", "lcase_ok_homog"], stale_fun="lcase_stale")
+                         {"kind": cls, "op": "decode", "cross_type_equal": cross})
+            lcases.append(f"LC [{'; '.join(lit_coq(l) for l in lits)}] {to_ouv(bdec(v))} {to_uv(v)} {to_ouv(observed)} {to_ouv(expected)}")
+            linfo.append((expr, entry, vx, show(observed), show(expected), cls))
+        # encode: a listed constant is packed like a value of its own class, anything else raises
+        evals = [(l, repr(l) if not isinstance(l, _enum.Enum) else f"{type(l).__name__}.{l.name}") for l in lits]
+        evals += [(eval(x, mod.__dict__), x) for x in (LIT_ENC_EXTRA if not ctx.quick() or expr in CURATED_LITS else rng.sample(LIT_ENC_EXTRA, 5))]
+        for v, vx in evals:
+            observed = outcome(site.encode, v)
+            hit = next((l for l in lits if canon(v) == canon(l)), None)
+            expected = mem.encode(type(hit), v, False) if hit is not None or any(canon(v) == canon(l) for l in lits) else ("raise", "ValueError")
+            benc = mem.encode(bytes, v, False)
+            cls = "agree" if same(observed, expected) else "literal-encode"
+            ctx.count(("litenc", expr, type(v).__name__, cls))
+            ctx.hist("literal_encode_outcome", cls + "/" + observed[0])
+            if cls != "agree":
+                ctx.fail(f"Literal encode {expr} via {entry} <- {vx}: got {show(observed)}, property says {show(expected)}",
+                         dict(site.replay_base(), op="encode", input=vx, observed=show(observed), expected=show(expected)),
+                         {"kind": cls, "op": "encode"})
+            lecases.append(f"LEC [{'; '.join(lit_coq(l) for l in lits)}] {to_ouv(benc)} {to_uv(v)} {to_ouv(observed)} {to_ouv(expected)}")
+            leinfo.append((expr, entry, vx, show(observed), show(expected), cls))
+    corr(ctx, "literal-decode-model-vs-impl", lcases, linfo, "lcase", ["lcase_ok", "lcase_ok_model", "lcase_ok_ref", "lcase_ok_dom"])
+    corr(ctx, "literal-encode-model-vs-impl", lecases, leinfo, "lecase", ["lecase_ok", "lecase_ok_model", "lecase_ok_ref"])
 
 
 THEOREMS = [
     "C11_union_decode_partial", "C11_union_deviation_char", "C11_union_shadow_result", "C11_union_none_refuted",
     "C11_union_shadow_refuted", "C11_no_cross_coercion", "C11_scalars_first_no_shadow", "C11_union_result_from_member",
     "C11_union_raises_iff", "C11_none_member_never_raises", "C11_deterministic", "C11_union_dedup_invisible", "C11_nested_union_partial", "C11_opt",
-    "C11_union_encode_partial", "C11_union_encode_refuted", "C11_literal_partial", "C11_literal_non_numeric",
-    "C11_literal_returns_listed", "C11_literal_accepts_listed", "C11_literal_refuted",
+    "C11_union_encode_partial", "C11_union_encode_refuted", "C11_literal_full", "C11_literal_encode_full",
+    "C11_literal_returns_listed", "C11_literal_accepts_listed",
 ]
 
 
